@@ -18,17 +18,20 @@ from .c11 import new_interp
 
 
 def find_canonizers(p):
+    """role: a 3-parameter encoder of util.py that delegates to another sigencode_* function
+    but does not pass its `s` parameter through unchanged on every path"""
     out = []
     m = p.modules["util"]
     for f in m.funcs.values():
         if f.cls or "." in f.qual or len(f.params) != 3:
             continue
         r, s, order = f.params
-        # role: an encoder that conditionally replaces its `s` parameter before delegating
-        cmp_ = any(isinstance(n, ast.If) and any(isinstance(a, ast.Assign) and any(isinstance(t, ast.Name) and t.id == s for t in a.targets) for a in ast.walk(n)) for n in ast.walk(f.node)) \
-            or any(isinstance(n, ast.Call) and isinstance(n.func, ast.Name) and n.func.id == "min" for n in ast.walk(f.node))
-        calls = [n for n in ast.walk(f.node) if isinstance(n, ast.Call) and isinstance(n.func, ast.Name) and n.func.id.startswith("sigencode_") and n.func.id in m.funcs]
-        if cmp_ and calls:
+        calls = [n for n in ast.walk(f.node) if isinstance(n, ast.Call) and isinstance(n.func, ast.Name) and n.func.id.startswith("sigencode_") and n.func.id in m.funcs and n.func.id != f.qual]
+        if not calls:
+            continue
+        reassigned = any(isinstance(n, (ast.Assign, ast.AugAssign)) and any(isinstance(t, ast.Name) and t.id == s for t in (n.targets if isinstance(n, ast.Assign) else [n.target])) for n in ast.walk(f.node))
+        changed_arg = any(len(c.args) >= 2 and not (isinstance(c.args[1], ast.Name) and c.args[1].id == s) for c in calls)
+        if reassigned or changed_arg:
             out.append((f, sorted({c.func.id for c in calls})))
     return out
 
